@@ -1078,12 +1078,14 @@ func c09Extras(caps amCaps) []corpusExtra {
 			{"Defaults", st(fld("custom", false, rf("Custom")), fld("unit", false, ty("string")))},
 			{"FieldConfig", st(fld("defaults", false, rf("Defaults")), fld("note", false, ty("string")))},
 			{"Item", st(fld("name", true, strLen(1, 6)), fld("weight", false, weight), fld("on", false, ty("bool")))},
+			{"Range", st(fld("from", true, strLen(1, 8)), fld("quick", true, arr(ty("string"))), fld("to", true, ty("string")), fld("marks", false, mp(ty("bool"))))},
 			{"Row", st(fld("kind", true, konst("row")), fld("title", true, strLen(1, 8)))},
 			{"Graph", st(fld("kind", true, konst("graph")), fld("name", true, strLen(1, 8)), fld("span", false, tyw("int", intW)))},
 			{"Panel", st(
 				fld("kind", true, konst("panel")),
 				fld("elements", false, arr(&amType{K: "union", Disc: "kind", MinLen: -1, MaxLen: -1, Branches: []*amType{rf("Row"), rf("Graph")}})),
 				fld("title", true, strLen(1, 12)),
+				fld("note", false, ty("string")),
 				fld("fieldConfig", false, rf("FieldConfig")),
 				fld("visible", true, ty("bool")),
 				fld("tags", true, arr(strLen(1, 5))),
@@ -1091,6 +1093,7 @@ func c09Extras(caps amCaps) []corpusExtra {
 				fld("byName", false, mp(rf("Item"))),
 				fld("limits", false, mp(bounded(tyw("int", intW), 1, 50))),
 				fld("leaf", false, rf("Item")),
+				fld("span", false, rf("Range")),
 				fld("main", true, rf("Item")),
 			)},
 		}}
@@ -1108,9 +1111,10 @@ func c09Extras(caps amCaps) []corpusExtra {
 		{"append-unfold", mkAM(), v("", "  - array_to_append: {by_name: Panel.tags}\n  - array_to_append: {by_name: Panel.items}\n  - unfold_boolean: {by_name: Panel.visible, true_as: show, false_as: hide}\n"), map[string]string{
 			"Panel.tags": "tags", "Panel.items": "items", "Panel.show": "visible", "Panel.hide": "visible"}},
 		{"append-union", mkAM(), v("", "  - array_to_append: {by_name: Panel.elements}\n  - disjunction_as_options: {by_name: Panel.elements}\n"), nil},
-		{"index-args", mkAM(), v("", "  - map_to_index: {by_name: Panel.byName}\n  - map_to_index: {by_name: Panel.limits}\n  - struct_fields_as_arguments: {by_name: Panel.leaf}\n"), map[string]string{
-			"Panel.byName": "byName.", "Panel.limits": "limits.", "Panel.leaf": "leaf.name,leaf.weight,leaf.on"}},
-		{"ctor", mkAM(), v("  - promote_options_to_constructor: {by_object: Panel, options: [title, main]}\n  - initialize: {by_object: Item, set: [{property: on, value: true}]}\n", "  - struct_fields_as_options: {by_name: Panel.leaf}\n"), map[string]string{
+		{"append-union-alias", mkAM(), v("", "  - array_to_append: {by_name: Panel.elements}\n  - disjunction_as_options: {by_name: Panel.elements}\n  - duplicate: {by_name: Panel.row, as: addRow}\n  - array_to_append: {by_name: Panel.items}\n  - duplicate: {by_name: Panel.items, as: addItem}\n"), nil},
+		{"index-args", mkAM(), v("", "  - map_to_index: {by_name: Panel.byName}\n  - map_to_index: {by_name: Panel.limits}\n  - struct_fields_as_arguments: {by_name: Panel.leaf}\n  - struct_fields_as_arguments: {by_name: Panel.span}\n"), map[string]string{
+			"Panel.byName": "byName.", "Panel.limits": "limits.", "Panel.leaf": "leaf.name,leaf.weight,leaf.on", "Panel.span": "span.from,span.quick,span.to,span.marks"}},
+		{"ctor", mkAM(), v("  - promote_options_to_constructor: {by_object: Panel, options: [title, main, note]}\n  - initialize: {by_object: Item, set: [{property: on, value: true}]}\n", "  - struct_fields_as_options: {by_name: Panel.leaf}\n"), map[string]string{
 			"Panel.name": "leaf.name", "Panel.weight": "leaf.weight", "Panel.on": "leaf.on"}},
 		{"rename-dup", mkAM(), v("  - duplicate: {by_object: Item, as: Thing}\n", "  - rename: {by_name: Panel.title, as: heading}\n  - duplicate: {by_name: Panel.tags, as: labels}\n  - omit: {by_name: Panel.limits}\n"), map[string]string{
 			"Panel.heading": "title", "Panel.labels": "tags", "Panel.tags": "tags", "Thing.name": "name"}},
